@@ -1,4 +1,14 @@
-"""C19 — canonical forms and alternative representations denote the same object."""
+"""C19 — canonical forms and alternative representations denote the same object.
+
+Case kinds
+  affine_canon  canonicalize_expr                                   (Model/Affine.lean)
+  sp_canon      StridePattern.canonicalize + address sequence       (Model/StridePattern.lean)
+  pack          pack_bitlist: emitted shli/ori tree and its value   (Model/PackBits.lean)
+  at_tomap / at_frommap / at_compose   AffineTransform              (Model/AffineTransform.lean)
+  sp_syntax / cfg_syntax   attribute print -> lex -> parse          (Model/AttrSyntax.lean)
+  opt_table     names of STREAMER_OPT_MAP
+"""
+import io
 import itertools
 import random
 
@@ -64,51 +74,528 @@ def gen_expr(rng: random.Random, d: int, ndims: int, affine_only=False):
 GRID = [list(p) for p in itertools.product(range(-3, 6), repeat=2)]
 
 
+# ------------------------------------------------------------------------------------------------
+# stride patterns
+def seq_of(ub, ts):
+    """reference semantics, independent of the Lean model: nested loops, first entry innermost"""
+    n = min(len(ub), len(ts))
+    out = []
+    for t in itertools.product(*[range(b) for b in reversed(ub[:n])]):  # outermost first
+        out.append(sum(i * s for i, s in zip(reversed(t), ts)))
+    return out
+
+
+def gen_sp(rng):
+    n = rng.choice([0, 1, 2, 2, 3, 3, 4, 5])
+    ub = [rng.choice([0, 1, 1, 2, 2, 3, 4, 5]) for _ in range(n)]
+    ts = [rng.choice([0, 0, 1, 2, 4, 8, 6, 12, 16, -1, -4, 64]) for _ in range(n)]
+    for i in range(1, n):  # make neighbours mergeable
+        r = rng.random()
+        if r < 0.45:
+            ts[i] = ub[i - 1] * ts[i - 1]
+        elif r < 0.6 and i >= 2:  # mergeable across a unit / removed dimension
+            ts[i] = ub[i - 2] * ts[i - 2] * (ub[i - 1] if ts[i - 1] == ub[i - 2] * ts[i - 2] else 1)
+    ss = [rng.choice([0, 1, 8, 8, 16, 64, -8]) for _ in range(rng.choice([0, 1, 1, 2, 2, 3]))]
+    if rng.random() < 0.85:
+        ss = [s for s in ss if s != 0]
+    return ub, ts, ss
+
+
+def sp_json(sp):
+    return {"ub": [x.data for x in sp.upper_bounds], "ts": [x.data for x in sp.temporal_strides],
+            "ss": [x.data for x in sp.spatial_strides]}
+
+
+# ------------------------------------------------------------------------------------------------
+# pack_bitlist
+def gen_pack(rng):
+    w = rng.choice([32, 32, 64])
+    k = rng.choice([1, 2, 2, 3, 4, 4, 5, 6, 7, 8, 9])
+    if rng.random() < 0.04:
+        k = 0
+    widths = [rng.randint(1, 10) for _ in range(k)]
+    offs, o = [], 0
+    for wd in widths:
+        o += rng.choice([0, 0, 0, 1, 3])
+        offs.append(o)
+        o += wd
+    if o > w:  # squeeze into the word
+        widths = [1] * k
+        offs = list(range(k))
+    mode = rng.random()
+    vals = [rng.getrandbits(wd) for wd in widths]
+    if mode < 0.15:   # overlapping / oversized values: only the OR statement is checked
+        vals = [rng.getrandbits(rng.randint(1, 12)) for _ in range(k)]
+        widths = None
+    elif mode < 0.22 and k:  # a negative constant (two's complement in dtype bits)
+        vals[rng.randrange(k)] = -rng.randint(1, 128)
+        widths = None
+    order = list(range(k))
+    rng.shuffle(order)
+    case = {"kind": "pack", "w": w, "vs": [vals[i] for i in order], "os": [offs[i] for i in order],
+            "widths": None if widths is None else [widths[i] for i in order],
+            "ssa": [rng.choice([0, 0, 1, 2]) for _ in range(k)], "ssa_off": [rng.choice([0, 0, 0, 1]) for _ in range(k)]}
+    if rng.random() < 0.03 and k:
+        case["os"] = case["os"][:-1]  # strict zip must raise
+        case["ssa_off"] = case["ssa_off"][:-1]
+    return case
+
+
+def run_pack(case):
+    """run the real pack_bitlist and interpret the emitted arith ops"""
+    from snaxc.util.pack_bitlist import pack_bitlist
+    from xdsl.dialects import arith
+    from xdsl.ir import SSAValue
+    w = case["w"]
+    mask = (1 << w) - 1
+    env = {}   # SSAValue -> (unbounded value, w-bit value, tree)
+
+    def outside(v, mode):
+        op = arith.ConstantOp.from_int_and_width(v, w)
+        env[op.result] = (v & mask, v & mask, ("const", v & mask))
+        return op if mode == 2 else op.result
+
+    vals = [v if m == 0 else outside(v, m) for v, m in zip(case["vs"], case["ssa"])]
+    offs = [o if m == 0 else outside(o, 1) for o, m in zip(case["os"], case["ssa_off"])]
+    ops = list(pack_bitlist(vals, offs, w))
+    last = None
+    for op in ops:
+        if isinstance(op, arith.ConstantOp):
+            v = op.value.value.data & mask
+            env[op.result] = (v, v, ("const", v))
+        elif isinstance(op, arith.ShLIOp):
+            a, b = env[SSAValue.get(op.lhs)], env[SSAValue.get(op.rhs)]  # KeyError = use before def
+            if b[0] >= w:
+                return {"poison": f"arith.shli by {b[0]} >= {w} bits"}
+            env[op.result] = (a[0] << b[0], (a[1] << b[1]) & mask, ["shl", a[0], b[0]])
+        elif isinstance(op, arith.OrIOp):
+            a, b = env[SSAValue.get(op.lhs)], env[SSAValue.get(op.rhs)]
+            env[op.result] = (a[0] | b[0], a[1] | b[1], ["or", a[2], b[2]])
+        else:
+            raise ValueError(f"unexpected op {op.name}")
+        if op.results[0].type.width.data != w or any(o.type != op.results[0].type for o in op.operands):
+            return {"poison": f"ill-typed {op.name}: operand/result types are not all i{w}"}
+        last = op
+    if last is None:
+        return {"tree": None}
+    r = env[last.results[0]]
+    return {"tree": r[2], "value": r[0], "valueW": r[1]}
+
+
+# ------------------------------------------------------------------------------------------------
+# AffineTransform
+def gen_lin_expr(rng, d, nd):
+    """expressions admitted by from_affine_map whose products have a dimension-free side"""
+    if d == 0 or rng.random() < 0.25:
+        if nd and rng.random() < 0.6:
+            return ["d", rng.randrange(nd)]
+        return ["c", rng.choice([-3, -1, 0, 1, 2, 3, 5])]
+    if rng.random() < 0.55:
+        return ["+", gen_lin_expr(rng, d - 1, nd), gen_lin_expr(rng, d - 1, nd)]
+    c = gen_lin_expr(rng, rng.choice([0, 0, 1]), 0)
+    e = gen_lin_expr(rng, d - 1, nd)
+    return ["*", e, c] if rng.random() < 0.6 else ["*", c, e]
+
+
+def has_divmod(j):
+    return j[0] not in "dc" and (j[0] in ("//", "%", "ceildiv") or has_divmod(j[1]) or has_divmod(j[2]))
+
+
+def dim_free(j):
+    return j[0] == "c" or (j[0] != "d" and dim_free(j[1]) and dim_free(j[2]))
+
+
+def mul_const_side(j):
+    if j[0] in "dc":
+        return True
+    return (j[0] != "*" or dim_free(j[1]) or dim_free(j[2])) and mul_const_side(j[1]) and mul_const_side(j[2])
+
+
+def max_dim(j):
+    if j[0] == "d":
+        return j[1]
+    if j[0] == "c":
+        return -1
+    return max(max_dim(j[1]), max_dim(j[2]))
+
+
+def gen_mat(rng, rows, cols):
+    return [[rng.choice([0, 0, 1, 1, 2, -1, 3, -2, 4, 8]) for _ in range(cols)] for _ in range(rows)]
+
+
+def gen_T(rng, rows=None, cols=None):
+    rows = rng.choice([0, 1, 2, 2, 3, 4]) if rows is None else rows
+    cols = rng.choice([0, 1, 2, 2, 3, 4]) if cols is None else cols
+    return {"nd": cols, "A": gen_mat(rng, rows, cols), "b": [rng.choice([0, 0, 1, -1, 2, 5, -7]) for _ in range(rows)]}
+
+
+def mk_T(t):
+    import numpy as np
+    from snaxc.ir.dart.affine_transform import AffineTransform
+    A = np.array(t["A"], dtype=np.int_).reshape(len(t["b"]), t["nd"])
+    return AffineTransform(A, np.array(t["b"], dtype=np.int_))
+
+
+def T_json(t):
+    return {"nd": int(t.A.shape[1]), "A": [[int(v) for v in row] for row in t.A], "b": [int(v) for v in t.b]}
+
+
+def py_affine(t, x):
+    return [sum(a * v for a, v in zip(row, x)) + b for row, b in zip(t["A"], t["b"])]
+
+
+def points(rng_seed, nd, n=6):
+    r = random.Random(rng_seed)
+    pts = [[0] * nd, [1] * nd] + [[r.randint(-9, 9) for _ in range(nd)] for _ in range(n)]
+    pts.append([r.randint(-10 ** 6, 10 ** 6) for _ in range(nd)])
+    return pts
+
+
+# ------------------------------------------------------------------------------------------------
+# attribute syntax
+_CTX = None
+
+
+def ctx():
+    global _CTX
+    if _CTX is None:
+        from snaxc.dialects.snax import Snax
+        from snaxc.dialects.snax_stream import SnaxStream
+        from xdsl.context import Context
+        from xdsl.dialects.builtin import Builtin
+        _CTX = Context()
+        _CTX.load_dialect(Builtin)
+        _CTX.load_dialect(Snax)
+        _CTX.load_dialect(SnaxStream)
+    return _CTX
+
+
+def attr_text(a):
+    from xdsl.printer import Printer
+    s = io.StringIO()
+    Printer(stream=s).print_attribute(a)
+    return s.getvalue()
+
+
+PUNCT = {"LESS": "<", "GREATER": ">", "L_SQUARE": "[", "R_SQUARE": "]", "COMMA": ",", "MINUS": "-", "EQUAL": "="}
+
+
+def lex(text):
+    """tokens of the real lexer; the leading `#dialect.attr` token is dropped"""
+    from xdsl.utils.lexer import Input
+    from xdsl.utils.mlir_lexer import MLIRLexer, MLIRTokenKind
+    lx = MLIRLexer(Input(text, "<c19>"))
+    out = []
+    while True:
+        tok = lx.lex()
+        if tok.kind == MLIRTokenKind.EOF:
+            break
+        name = tok.kind.name
+        if name in PUNCT:
+            out.append(PUNCT[name])
+        elif name == "BARE_IDENT":
+            out.append(["id", tok.text])
+        elif name == "INTEGER_LIT":
+            out.append(["n", tok.kind.get_int_value(tok.span)])
+        elif name == "HASH_IDENT" and not out:
+            continue
+        else:
+            out.append(["other", tok.text])
+    return out
+
+
+def tok_text(toks):
+    return " ".join(t if isinstance(t, str) else str(t[1]) for t in toks)
+
+
+def mutate(toks, mut):
+    """deterministic token-level damage used by the malformed stream"""
+    if not mut or not toks:
+        return toks
+    op, k = mut
+    i = k % len(toks)
+    t = list(toks)
+    if op == "del":
+        del t[i]
+    elif op == "dup":
+        t.insert(i, t[i])
+    elif op == "swap" and len(t) > 1:
+        j = (i + 1) % len(t)
+        t[i], t[j] = t[j], t[i]
+    elif op == "minus":
+        t.insert(i, "-")
+    elif op == "comma":
+        t.insert(i, ",")
+    return t
+
+
+def parse_real(prefix, toks):
+    from xdsl.parser import Parser
+    return Parser(ctx(), prefix + tok_text(toks)).parse_attribute()
+
+
+def cfg_json(c):
+    return {"streamers": [{"ty": s.type.value, "temp": [str(f.value) for f in s.temporal_dims],
+                           "spat": [int(d) for d in s.spatial_dims], "opts": [o.name for o in s.opts]}
+                          for s in c.streamers], "sys": c.system_type().value}
+
+
+def mk_cfg(j):
+    from snaxc.accelerators.streamers.extensions import STREAMER_OPT_MAP
+    from snaxc.accelerators.streamers.streamers import (Streamer, StreamerConfiguration, StreamerSystemType,
+                                                       StreamerType)
+    ss = [Streamer(StreamerType(s["ty"]), s["temp"], s["spat"], [STREAMER_OPT_MAP[o]() for o in s["opts"]])
+          for s in j["streamers"]]
+    return StreamerConfiguration(ss, StreamerSystemType(j["sys"]))
+
+
+OPT_NAMES = ["b", "bm", "c", "a", "maxpool_ext", "memset_ext", "t", "add_ext", "add_ext_long", "rescale_down_ext",
+             "rescale_up_ext"]
+
+
+def gen_cfg(rng):
+    def streamer():
+        return {"ty": rng.choice("rw"), "temp": [rng.choice("nnnir") for _ in range(rng.choice([0, 1, 2, 3, 3, 5, 6]))],
+                "spat": [rng.choice([0, 1, 2, 4, 8, 8, 16, 64]) for _ in range(rng.choice([0, 1, 1, 2, 3]))],
+                "opts": [rng.choice(OPT_NAMES) for _ in range(rng.choice([0, 0, 1, 2, 3, 6]))]}
+    return {"streamers": [streamer() for _ in range(rng.choice([1, 1, 2, 3, 5]))],
+            "sys": "xdma" if rng.random() < 0.1 else "reg"}
+
+
+def default_cfgs():
+    import importlib
+    out = []
+    for m in ("snax_alu", "snax_gemmx", "snax_xdma", "snax_gemm", "snax_simd", "snax_hypercorex"):
+        try:
+            mod = importlib.import_module(f"snaxc.accelerators.{m}")
+            out.append(cfg_json(mod.default_streamer))
+        except Exception:
+            pass
+    return out
+
+
 class C19(Prop):
     id = "C19"
     PARALLEL = True
+    exhaustive_thorough = True
     trusted_base = [
         "modelled: canonicalize_affine.py incl. xDSL's AffineExpr.__add__/__mul__ smart constructors (Model/Affine.lean)",
+        "modelled: StridePattern.canonicalize (Model/StridePattern.lean); the address-sequence semantics `offs` is "
+        "compared with the harness's nested-loop enumeration on every case",
+        "modelled: pack_bitlist op tree (Model/PackBits.lean); the harness interprets the real emitted arith ops",
+        "modelled: AffineTransform eval/compose/to_affine_map/from_affine_map over unbounded integers (Model/AffineTransform.lean)",
+        "modelled at token level: StridePattern / StreamerConfigurationAttr print+parse (Model/AttrSyntax.lean); "
+        "xDSL's MLIR lexer and parser primitives are exercised, not modelled",
     ]
     assumptions = [
         "affine expressions with symbols are outside the model (canonicalize_affine.py never creates or inspects them)",
         "Python recursion depth is not modelled: the model uses fuel 64 per expression; running out of fuel where Python answers is a disagreement",
+        "stride patterns: upper bounds are naturals; negative bounds are outside the model (canonicalize is not "
+        "idempotent on them, e.g. bounds [-1,-1] strides [s,-s])",
+        "pack_bitlist: values/offsets are interpreted as dtype-bit unsigned words; shift amounts >= dtype (poison for "
+        "arith.shli) are not generated",
+        "AffineTransform: numpy int64 overflow is not modelled (the model is over unbounded Int)",
+        "AccessPattern.canonicalize / inner_dims are not modelled here",
     ]
-    rule = ("random expressions over + * floordiv mod ceildiv, depth<=4, constants -3..8, 2-3 dims; non-trivial = the "
-            "canonical form differs from the input; distinct by canonical JSON")
+    rule = ("per kind: affine_canon non-trivial = canonical form differs from the input; sp_canon = canonical pattern "
+            "differs; pack = at least 2 fields; at_* = at least one row and one column; syntax = unmutated round trip "
+            "with a non-empty list; distinct by canonical JSON")
 
+    # -- generators -----------------------------------------------------------------------------
     def cases(self, rng, tier):
-        n = 600 if tier == "quick" else 20000
+        quick = tier == "quick"
+        yield {"kind": "opt_table"}
+        for c in default_cfgs():
+            yield {"kind": "cfg_syntax", "cfg": c, "mut": None}
+        n = 600 if quick else 20000
         for _ in range(n):
             nd = rng.choice([2, 2, 3])
             yield {"kind": "affine_canon", "e": gen_expr(rng, rng.choice([1, 2, 3, 4, 4]), nd), "ndims": nd}
+        if not quick:  # exhaustive: all patterns of rank <= 3 over bounds {0,1,2,3} x strides {0,1,2,3,6} (8420 patterns)
+            for n_ in range(4):
+                for ub in itertools.product([0, 1, 2, 3], repeat=n_):
+                    for ts in itertools.product([0, 1, 2, 3, 6], repeat=n_):
+                        yield {"kind": "sp_canon", "ub": list(ub), "ts": list(ts), "ss": [8]}
+        for _ in range(500 if quick else 15000):
+            ub, ts, ss = gen_sp(rng)
+            if rng.random() < 0.02 and ub:
+                ts = ts[:-1]  # verify must refuse
+            yield {"kind": "sp_canon", "ub": ub, "ts": ts, "ss": ss}
+        for _ in range(300 if quick else 8000):
+            yield gen_pack(rng)
+        for _ in range(150 if quick else 4000):
+            yield {"kind": "at_tomap", "t": gen_T(rng), "seed": rng.randrange(1 << 30)}
+        for _ in range(250 if quick else 6000):
+            nd = rng.choice([0, 1, 2, 2, 3, 4])
+            r = rng.random()
+            if r < 0.8:
+                rs = [gen_lin_expr(rng, rng.choice([0, 1, 2, 3, 4]), nd) for _ in range(rng.choice([0, 1, 1, 2, 3]))]
+            elif r < 0.9:   # rejected: floordiv / mod / ceildiv somewhere
+                rs = [gen_expr(rng, rng.choice([1, 2, 3]), max(nd, 1)) for _ in range(rng.choice([1, 2]))]
+                nd = max(nd, 1)
+            elif r < 0.95:  # IndexError: a dimension beyond num_dims
+                rs = [["+", gen_lin_expr(rng, 2, nd), ["d", nd + rng.choice([0, 1])]]]
+            else:           # not affine: raw product of two dimension-carrying sides
+                nd = max(nd, 2)
+                rs = [["*", gen_lin_expr(rng, 1, nd), ["+", ["d", 0], ["d", 1]]]]
+            yield {"kind": "at_frommap", "n": nd, "rs": rs, "seed": rng.randrange(1 << 30)}
+        for _ in range(200 if quick else 5000):
+            mid = rng.choice([0, 1, 2, 2, 3])
+            s = gen_T(rng, cols=mid)
+            o = gen_T(rng, rows=mid if rng.random() < 0.93 else mid + 1)
+            yield {"kind": "at_compose", "s": s, "o": o, "seed": rng.randrange(1 << 30)}
+        muts = ["del", "dup", "swap", "minus", "comma"]
+        for _ in range(250 if quick else 6000):
+            n1 = rng.choice([0, 1, 2, 3, 5])
+            ub = [rng.choice([0, 1, 2, 3, 16, -1, 1024]) for _ in range(n1)]
+            ts = [rng.choice([0, 1, -8, 64, 7, 123456789]) for _ in range(n1)]
+            ss = [rng.choice([0, 8, -8, 1]) for _ in range(rng.choice([0, 1, 2, 3]))]
+            mut = [rng.choice(muts), rng.randrange(1000)] if rng.random() < 0.4 else None
+            yield {"kind": "sp_syntax", "ub": ub, "ts": ts, "ss": ss, "mut": mut}
+        for _ in range(300 if quick else 8000):
+            mut = [rng.choice(muts), rng.randrange(1000)] if rng.random() < 0.4 else None
+            yield {"kind": "cfg_syntax", "cfg": gen_cfg(rng), "mut": mut}
 
-    # real code
+    # -- real code ------------------------------------------------------------------------------
     def impl(self, case):
-        from snaxc.util.canonicalize_affine import canonicalize_expr
-        if case["kind"] == "affine_canon":
+        k = case["kind"]
+        if k == "affine_canon":
+            from snaxc.util.canonicalize_affine import canonicalize_expr
             e = to_x(case["e"])
             r = canonicalize_expr(e)
             return {"canon": of_x(r)}
-        raise ValueError(case["kind"])
+        if k == "sp_canon":
+            from snaxc.dialects.snax_stream import StridePattern
+            sp = StridePattern(case["ub"], case["ts"], case["ss"])  # VerifyException on unequal lengths
+            return {"canon": sp_json(sp.canonicalize()), "addrs": seq_of(case["ub"], case["ts"])}
+        if k == "pack":
+            return run_pack(case)
+        if k == "at_tomap":
+            m = mk_T(case["t"]).to_affine_map()
+            assert m.num_dims == case["t"]["nd"] and m.num_symbols == 0
+            return {"results": [of_x(r) for r in m.results]}
+        if k == "at_frommap":
+            from snaxc.ir.dart.affine_transform import AffineTransform
+            from xdsl.ir.affine import AffineMap
+            m = AffineMap(case["n"], 0, tuple(to_x(r) for r in case["rs"]))
+            t = AffineTransform.from_affine_map(m)
+            tj = T_json(t)
+            if not case["rs"]:  # numpy gives shape (0, n) / (0,)
+                tj = {"nd": case["n"], "A": [], "b": []}
+            return {"ok": tj}
+        if k == "at_compose":
+            import numpy as np
+            s, o = mk_T(case["s"]), mk_T(case["o"])
+            c = s.compose(o)
+            evs = [[int(v) for v in c.eval(np.array(x, dtype=np.int_))] for x in points(case["seed"], case["o"]["nd"])]
+            return {"ok": T_json(c), "evals": evs}
+        if k == "sp_syntax":
+            from snaxc.dialects.snax_stream import StridePattern
+            sp = StridePattern(case["ub"], case["ts"], case["ss"])
+            toks = lex(attr_text(sp))
+            try:
+                parsed = sp_json(parse_real("#snax_stream.stride_pattern", mutate(toks, case["mut"])))
+            except Exception:
+                parsed = "error"
+            return {"toks": toks, "parsed": parsed}
+        if k == "cfg_syntax":
+            from snaxc.dialects.snax import StreamerConfigurationAttr
+            a = StreamerConfigurationAttr(mk_cfg(case["cfg"]))  # AssertionError for no streamers
+            toks = lex(attr_text(a))
+            try:
+                parsed = cfg_json(parse_real("#snax.streamer_config", mutate(toks, case["mut"])).data)
+            except Exception:
+                parsed = "error"
+            return {"toks": toks, "parsed": parsed}
+        if k == "opt_table":
+            from snaxc.accelerators.streamers.extensions import STREAMER_OPT_MAP
+            return {"names": sorted(STREAMER_OPT_MAP.keys()),
+                    "classes_distinct": len({v for v in STREAMER_OPT_MAP.values()}) == len(STREAMER_OPT_MAP),
+                    "name_is_key": all(v().name == key for key, v in STREAMER_OPT_MAP.items())}
+        raise ValueError(k)
 
+    # -- model ----------------------------------------------------------------------------------
     def requests(self, case):
-        if case["kind"] == "affine_canon":
+        k = case["kind"]
+        if k == "affine_canon":
             return [{"fn": "c19.canon", "args": {"e": case["e"], "fuel": FUEL}}]
+        if k == "sp_canon":
+            return [{"fn": "c19.sp_canon", "args": {"ub": case["ub"], "ts": case["ts"], "ss": case["ss"]}}]
+        if k == "pack":
+            mask = (1 << case["w"]) - 1
+            return [{"fn": "c19.pack", "args": {"vs": [v & mask for v in case["vs"]], "os": case["os"], "w": case["w"]}}]
+        if k == "at_tomap":
+            return [{"fn": "c19.at_tomap", "args": case["t"]}]
+        if k == "at_frommap":
+            return [{"fn": "c19.at_frommap", "args": {"n": case["n"], "rs": case["rs"]}}]
+        if k == "at_compose":
+            return [{"fn": "c19.at_compose_eval", "args": {"s": case["s"], "o": case["o"],
+                                                            "xs": points(case["seed"], case["o"]["nd"])}}]
+        if k == "sp_syntax":
+            return [{"fn": "c19.sp_syntax", "args": {"ub": case["ub"], "ts": case["ts"], "ss": case["ss"],
+                                                     "mut": case["mut"]}}]
+        if k == "cfg_syntax":
+            return [{"fn": "c19.cfg_syntax", "args": {"cfg": case["cfg"], "mut": case["mut"]}}]
+        if k == "opt_table":
+            return [{"fn": "c19.opt_table", "args": {}}]
         return []
 
     def model(self, case, answers):
-        if case["kind"] == "affine_canon":
-            a = answers[0]
-            if "err" in a:
-                return {"model_error": a["err"]}
-            if a["ok"] is None:
+        k = case["kind"]
+        a = answers[0]
+        if "err" in a:
+            return {"model_error": a["err"]}
+        a = a["ok"]
+        if k == "affine_canon":
+            if a is None:
                 return {"out_of_fuel": True}
-            return {"canon": a["ok"]}
+            return {"canon": a}
+        if k == "sp_canon":
+            if not a["verify"]:
+                return {"raised": "VerifyException"}
+            return {"canon": a["canon"], "addrs": a["addrs"]}
+        if k == "pack":
+            if "raised" in a:
+                return {"raised": a["raised"]}
+            if a["tree"] is None:
+                return {"tree": None}
+            if a["value"] != a["spec"]:
+                return {"model_error": "tree value differs from spec (contradicts pack_eq_fold)"}
+            return {"tree": a["tree"], "value": a["value"], "valueW": a["valueW"]}
+        if k == "at_tomap":
+            return {"results": a}
+        if k == "at_frommap":
+            return a
+        if k == "at_compose":
+            return a
+        if k == "sp_syntax":
+            if len(case["ub"]) != len(case["ts"]):
+                return {"raised": "VerifyException"}
+            p = a["parsed"]
+            if p is None or len(p["ub"]) != len(p["ts"]):
+                p = "error"   # ParseError, or VerifyException when the parsed attribute is constructed
+            return {"toks": a["toks"], "parsed": p}
+        if k == "cfg_syntax":
+            if not case["cfg"]["streamers"]:
+                return {"raised": "AssertionError"}
+            return {"toks": a["toks"], "parsed": "error" if a["parsed"] is None else a["parsed"]}
+        if k == "opt_table":
+            return {"names": sorted(a), "classes_distinct": len(set(a)) == len(a), "name_is_key": True}
 
+    def compare(self, case, impl_out, model_out):
+        if isinstance(impl_out, dict) and "raised" in impl_out and isinstance(model_out, dict) and "raised" in model_out:
+            return None if impl_out["raised"] == model_out["raised"] else "different exceptions"
+        return super().compare(case, impl_out, model_out)
+
+    # -- the property on the real code ----------------------------------------------------------
     def oracle(self, case, impl_out):
         out = []
-        if case["kind"] == "affine_canon":
+        k = case["kind"]
+
+        def bad(what, finding=None):
+            out.append({"what": what, "finding": finding})
+
+        if k == "affine_canon":
             if "raised" in impl_out:
                 return [{"what": f"canonicalize_expr raised {impl_out['raised']}: {impl_out.get('msg')}", "finding": None}]
             from snaxc.util.canonicalize_affine import canonicalize_expr
@@ -122,18 +609,162 @@ class C19(Prop):
                     continue
                 w = safe_eval(r, p)
                 if v != w:
-                    out.append({"what": f"canonical form evaluates to {w} instead of {v} at {p}", "finding": None})
+                    bad(f"canonical form evaluates to {w} instead of {v} at {p}")
                     break
             r2 = canonicalize_expr(r)
             if r2 != r:
-                out.append({"what": f"canonicalisation not idempotent: {r} -> {r2}", "finding": None})
+                bad(f"canonicalisation not idempotent: {r} -> {r2}")
+        elif k == "sp_canon":
+            if "raised" in impl_out:
+                if len(case["ub"]) == len(case["ts"]):
+                    bad(f"StridePattern raised {impl_out['raised']} on a well-formed pattern")
+                return out
+            from snaxc.dialects.snax_stream import StridePattern
+            c = impl_out["canon"]
+            if 0 in case["ss"]:
+                if c != {"ub": case["ub"], "ts": case["ts"], "ss": case["ss"]}:
+                    bad("pattern with a zero spatial stride was changed")
+            if c["ss"] != case["ss"]:
+                bad("spatial strides changed")
+            if len(c["ub"]) != len(c["ts"]):
+                bad("canonical pattern has unequal list lengths")
+            elif seq_of(c["ub"], c["ts"]) != seq_of(case["ub"], case["ts"]):
+                bad(f"canonical pattern ub={c['ub']} ts={c['ts']} has a different address sequence")
+            c2 = sp_json(StridePattern(c["ub"], c["ts"], c["ss"]).canonicalize())
+            if c2 != c:
+                bad(f"canonicalisation not idempotent: {c} -> {c2}")
+        elif k == "pack":
+            if "raised" in impl_out:
+                if len(case["vs"]) == len(case["os"]):
+                    bad(f"pack_bitlist raised {impl_out['raised']}: {impl_out.get('msg')}")
+                return out
+            if len(case["vs"]) != len(case["os"]):
+                bad("pack_bitlist accepted lists of different length")
+                return out
+            if "poison" in impl_out:
+                bad("emitted " + impl_out["poison"] + " (all offsets were below the word size)")
+                return out
+            if impl_out["tree"] is None:
+                if case["vs"]:
+                    bad("no operation emitted for a non-empty list")
+                return out
+            w = case["w"]
+            mask = (1 << w) - 1
+            want = 0
+            for v, o in zip(case["vs"], case["os"]):
+                want |= ((v & mask) << o) & mask
+            if impl_out["valueW"] != want:
+                bad(f"packed word is {impl_out['valueW']:#x}, OR of the shifted values is {want:#x}")
+            if case["widths"] is not None:
+                for v, o, wd in zip(case["vs"], case["os"], case["widths"]):
+                    if (impl_out["valueW"] >> o) & ((1 << wd) - 1) != v:
+                        bad(f"field at offset {o} width {wd} reads back {(impl_out['valueW'] >> o) & ((1 << wd) - 1)} instead of {v}")
+                        break
+                if impl_out["value"] != impl_out["valueW"]:
+                    bad("fields that fit the word were truncated")
+        elif k == "at_tomap":
+            if "raised" in impl_out:
+                return [{"what": f"to_affine_map raised {impl_out['raised']}: {impl_out.get('msg')}", "finding": None}]
+            from snaxc.ir.dart.affine_transform import AffineTransform
+            from xdsl.ir.affine import AffineMap
+            t = case["t"]
+            m = AffineMap(t["nd"], 0, tuple(to_x(r) for r in impl_out["results"]))
+            if len(m.results) != len(t["b"]):
+                bad("wrong number of results")
+            for x in points(case["seed"], t["nd"]):
+                if list(m.eval(x, [])) != py_affine(t, x):
+                    bad(f"to_affine_map evaluates to {list(m.eval(x, []))} instead of {py_affine(t, x)} at {x}")
+                    break
+            back = AffineTransform.from_affine_map(m)
+            if t["b"] and T_json(back) != t:
+                bad(f"from_affine_map(to_affine_map(t)) = {T_json(back)} differs from t")
+        elif k == "at_frommap":
+            lin = all(not has_divmod(r) and mul_const_side(r) and max_dim(r) < case["n"] for r in case["rs"])
+            if "raised" in impl_out:
+                if lin:
+                    bad(f"from_affine_map raised {impl_out['raised']} on a pure linear map: {impl_out.get('msg')}")
+                return out
+            if any(has_divmod(r) for r in case["rs"]):
+                bad("from_affine_map accepted a map with floordiv/ceildiv/mod")
+                return out
+            if not lin:
+                return out   # not an affine expression (raw d_i * d_j): outside the property's quantifier
+            import numpy as np
+            from xdsl.ir.affine import AffineMap
+            t = mk_T(impl_out["ok"])
+            m = AffineMap(case["n"], 0, tuple(to_x(r) for r in case["rs"]))
+            for x in points(case["seed"], case["n"]):
+                got = [int(v) for v in t.eval(np.array(x, dtype=np.int_))]
+                if got != list(m.eval(x, [])):
+                    bad(f"matrix form evaluates to {got}, the map to {list(m.eval(x, []))} at {x}")
+                    break
+        elif k == "at_compose":
+            ok_shape = case["s"]["nd"] == len(case["o"]["b"])
+            if "raised" in impl_out:
+                if ok_shape:
+                    bad(f"compose raised {impl_out['raised']}: {impl_out.get('msg')}")
+                return out
+            if not ok_shape:
+                bad("compose accepted mismatching shapes")
+                return out
+            import numpy as np
+            s, o = mk_T(case["s"]), mk_T(case["o"])
+            for x, got in zip(points(case["seed"], case["o"]["nd"]), impl_out["evals"]):
+                mid = o.eval(np.array(x, dtype=np.int_))
+                want = [int(v) for v in s.eval(mid)]
+                ref = py_affine(case["s"], py_affine(case["o"], x))
+                if got != want or got != ref:
+                    bad(f"compose(s,o).eval({x}) = {got}, s.eval(o.eval(x)) = {want}, reference {ref}")
+                    break
+        elif k == "sp_syntax":
+            if "raised" in impl_out:
+                if len(case["ub"]) == len(case["ts"]):
+                    bad(f"StridePattern raised {impl_out['raised']}")
+                return out
+            if case["mut"] is None and impl_out["parsed"] != {"ub": case["ub"], "ts": case["ts"], "ss": case["ss"]}:
+                bad(f"stride pattern parses back as {impl_out['parsed']}")
+        elif k == "cfg_syntax":
+            if "raised" in impl_out:
+                if case["cfg"]["streamers"]:
+                    bad(f"StreamerConfigurationAttr raised {impl_out['raised']}: {impl_out.get('msg')}")
+                return out
+            if case["mut"] is None and impl_out["parsed"] != case["cfg"]:
+                p = impl_out["parsed"]
+                if (isinstance(p, dict) and p["streamers"] == case["cfg"]["streamers"] and case["cfg"]["sys"] == "xdma"
+                        and p["sys"] == "reg"):
+                    bad("streamer configuration with system type xdma parses back as reg", "D16")
+                else:
+                    bad(f"streamer configuration parses back as {p}")
+        elif k == "opt_table":
+            if not impl_out.get("classes_distinct") or not impl_out.get("name_is_key"):
+                bad("STREAMER_OPT_MAP is not a bijection between option names and classes")
         return out
 
     def nontrivial(self, case, impl_out):
-        return case["kind"] != "affine_canon" or impl_out.get("canon") != case["e"]
+        k = case["kind"]
+        if not isinstance(impl_out, dict) or "raised" in impl_out:
+            return False
+        if k == "affine_canon":
+            return impl_out.get("canon") != case["e"]
+        if k == "sp_canon":
+            return impl_out["canon"]["ub"] != case["ub"] and len(impl_out["addrs"]) > 1
+        if k == "pack":
+            return len(case["vs"]) >= 2
+        if k == "at_tomap":
+            return bool(case["t"]["b"]) and case["t"]["nd"] > 0
+        if k == "at_frommap":
+            return "ok" in impl_out and bool(case["rs"]) and case["n"] > 0 and any(depth(r) >= 2 for r in case["rs"])
+        if k == "at_compose":
+            return "ok" in impl_out and bool(case["s"]["b"]) and case["o"]["nd"] > 0 and case["s"]["nd"] > 0
+        if k == "sp_syntax":
+            return case["mut"] is None and bool(case["ub"])
+        if k == "cfg_syntax":
+            return case["mut"] is None
+        return True
 
     def shrink(self, case):
-        if case["kind"] == "affine_canon":
+        k = case["kind"]
+        if k == "affine_canon":
             e = case["e"]
 
             def subs(j):
@@ -147,6 +778,47 @@ class C19(Prop):
                     yield [j[0], j[1], s]
             for s in subs(e):
                 yield dict(case, e=s)
+        elif k == "sp_canon" and len(case["ub"]) == len(case["ts"]):
+            n = len(case["ub"])
+            for i in range(n):
+                yield dict(case, ub=case["ub"][:i] + case["ub"][i + 1:], ts=case["ts"][:i] + case["ts"][i + 1:])
+            for i in range(n):
+                if case["ub"][i] > 2:
+                    yield dict(case, ub=case["ub"][:i] + [case["ub"][i] - 1] + case["ub"][i + 1:])
+            if len(case["ss"]) > 1:
+                yield dict(case, ss=case["ss"][:1])
+        elif k == "pack" and len(case["vs"]) == len(case["os"]):
+            n = len(case["vs"])
+            for i in range(n):
+                d = dict(case)
+                for f in ("vs", "os", "ssa", "ssa_off"):
+                    d[f] = case[f][:i] + case[f][i + 1:]
+                d["widths"] = None if case["widths"] is None else case["widths"][:i] + case["widths"][i + 1:]
+                yield d
+            if any(case["ssa"]) or any(case["ssa_off"]):
+                yield dict(case, ssa=[0] * n, ssa_off=[0] * n)
+        elif k == "at_frommap":
+            for i in range(len(case["rs"])):
+                if len(case["rs"]) > 1:
+                    yield dict(case, rs=[case["rs"][i]])
+            if len(case["rs"]) == 1:
+                j = case["rs"][0]
+                if j[0] not in "dc":
+                    yield dict(case, rs=[j[1]])
+                    yield dict(case, rs=[j[2]])
+        elif k == "cfg_syntax":
+            ss = case["cfg"]["streamers"]
+            if len(ss) > 1:
+                for i in range(len(ss)):
+                    yield dict(case, cfg=dict(case["cfg"], streamers=[ss[i]]))
+            elif ss:
+                s = ss[0]
+                for f in ("temp", "spat", "opts"):
+                    if len(s[f]) > 1:
+                        yield dict(case, cfg=dict(case["cfg"], streamers=[dict(s, **{f: s[f][:1]})]))
+                        yield dict(case, cfg=dict(case["cfg"], streamers=[dict(s, **{f: s[f][1:]})]))
+                    elif s[f] and f != "spat":
+                        yield dict(case, cfg=dict(case["cfg"], streamers=[dict(s, **{f: []})]))
 
 
 PROP = C19()
